@@ -1234,6 +1234,11 @@ class ChoicePayloadDecoder(ConstructedPayloadDecoderBase):
             innerFlag=False
         )
 
+        # constraints of the CHOICE type itself (WITH COMPONENTS)
+        inconsistency = asn1Object.isInconsistent
+        if inconsistency:
+            raise inconsistency
+
         yield asn1Object
 
     def indefLenValueDecoder(self, substrate, asn1Spec,
@@ -1305,6 +1310,11 @@ class ChoicePayloadDecoder(ConstructedPayloadDecoderBase):
         if not asn1Object.isValue:
             raise error.PyAsn1Error(
                 'No CHOICE alternative inside explicit tag %s' % (tagSet,))
+
+        # constraints of the CHOICE type itself (WITH COMPONENTS)
+        inconsistency = asn1Object.isInconsistent
+        if inconsistency:
+            raise inconsistency
 
         yield asn1Object
 
